@@ -148,6 +148,10 @@ func (fr *Frame) heap(st *State, name, sort string) Term {
 	if h, ok := st.heaps[name]; ok {
 		return h
 	}
+	if strings.HasPrefix(name, "R:") {
+		// ghost attribute heaps are never forgotten by a havoc: only explicit marks change them
+		return fr.attrEntryHeap(name)
+	}
 	ep := st.epoch
 	for p, e := range st.pfx {
 		if e > ep && heapOfPkg(name, p) {
@@ -1070,7 +1074,9 @@ func (fr *Frame) loopCalls(li *loopInfo, name string) bool {
 					return true
 				}
 				// hooks also see the calls made by callees whose contract says "inline"
-				if fc := fr.en.CS.Funcs[FuncKey(fn)]; fc != nil && fc.Inline && !seen[fn] {
+				fc := fr.en.CS.Funcs[FuncKey(fn)]
+				expanded := (fc != nil && fc.Inline) || (fc == nil && fn.Pkg != nil && fr.en.inModule(fn.Pkg.Pkg.Path()) && len(fn.Blocks) > 0)
+				if expanded && !seen[fn] {
 					seen[fn] = true
 					if inBlocks(fn.Blocks) {
 						return true
@@ -1085,4 +1091,17 @@ func (fr *Frame) loopCalls(li *loopInfo, name string) bool {
 		bs = append(bs, b)
 	}
 	return inBlocks(bs)
+}
+
+// attrEntryHeap: the entry content of a ghost attribute heap. Objects allocated later start
+// with the attribute false; "initially-false" attributes are false for every object on entry.
+func (fr *Frame) attrEntryHeap(name string) Term {
+	h := fr.top.entryHeap(name, ArrSort(SInt, SBool))
+	an := strings.TrimPrefix(name, "R:")
+	if fr.en.CS.Attrs[an] {
+		fr.ctx.Raw("attr0:"+an, fmt.Sprintf("(assert (forall ((r!a Int)) (! (not (select %s r!a)) :pattern ((select %s r!a)))))", h.S, h.S))
+	} else {
+		fr.ctx.Raw("attr0:"+an, fmt.Sprintf("(assert (forall ((r!a Int)) (! (=> (>= (stamp r!a) alloc0) (not (select %s r!a))) :pattern ((select %s r!a)))))", h.S, h.S))
+	}
+	return h
 }
